@@ -115,6 +115,7 @@ class Probe(EventListener):
 
     def on_method_error(self, ex):
         self._ev("method_error", type(ex).__name__)
+        self.w.ctx_flags.add("err")
 
     def on_runstate_change(self, sc):
         self._ev("runstate", str(sc))
@@ -187,6 +188,7 @@ class EngineWorld:
         self.exceptions: list[tuple] = []
         self.on_stop_hooks: list[Callable[[], None]] = []
         self.observers: list[Any] = []
+        self.ctx_flags: set[str] = set()     # perturbations seen in this engine lifetime: err, cf, edit
         self.hw = SimHardware()
         self.plog = ProbeLog()
         self.plog.on_event = self._probe_event
@@ -263,6 +265,11 @@ class EngineWorld:
     def snapshot(self) -> dict[str, Any]:
         return {t.name: t.get_value() for t in self.engine._iter_all_tags()}
 
+    def ctx(self) -> str:
+        """Suffix for violation kinds: which kinds of perturbation preceded (so that a finding that needs a live edit,
+        a cancel/force request or a method error is not confused with one that needs none)."""
+        return ("@" + "+".join(sorted(self.ctx_flags))) if self.ctx_flags else ""
+
     def method_state(self):
         return self.engine.method_manager.get_method_state()
 
@@ -297,6 +304,10 @@ class EngineWorld:
         accepted = isinstance(reply, AM.SuccessMessage)
         arg = getattr(msg, "name", None) or getattr(msg, "pcode", None) or getattr(msg, "exec_id", None) or ""
         self.requests.append((self.tick_no, kind, arg, accepted))
+        if accepted and kind in ("cancel", "force"):
+            self.ctx_flags.add("cf")
+        if accepted and kind == "edit" and self.state not in ("Stopped", "Restarting"):
+            self.ctx_flags.add("edit")
         self.rec.log("req", self.tick_no, kind, arg, accepted)
         for o in self.observers:
             f = getattr(o, "after_request", None)
